@@ -184,7 +184,7 @@ def wider_family(env, q):
         grids += [("grid 3 levels", G.Grid(shape0=(2, 2), splits=((2, 2), (2, 3), (3, 2)))),
                   ("healpix nside 2", GI.HEALPixGrid(nside0=2, depth=1)),
                   ("open 2d b", G.OpenGrid(shape0=(6, 4), splits=((3, 2), (2, 2)), padding=((1, 0), (1, 1)))),
-                  ("hp x log", GI.HPLogRGrid(min_shape=(12, 6), r_min=0.5, r_max=4.0, depth=1, desired_size0=12 * 6))]
+                  ("hp x log", GI.HPLogRGrid(nside=2, r_min_shape=6, r_min=0.5, r_max=4.0, nside0=1))]
     out, n = [], 0
     for name, g in grids:
         try:
